@@ -259,8 +259,7 @@ func updateHeads(
 					err,
 					corelog.Any("Root", blockLink.Cid),
 				)
-				// OR should this also return like below comment??
-				// return nil, errors.Wrap("error adding head (when root is new head): %s ", root, err)
+				return NewErrAddingHead(blockLink.Cid, err)
 			}
 			continue
 		}
